@@ -430,6 +430,27 @@ fn main() {
                     }
                 }
             }
+            // repeated entries whose text is long and multi-byte at every offset (whatever a rejection path does
+            // with the offending string - truncating, quoting - must not depend on where characters begin)
+            for kind in ["rodeo", "reader", "resolver", "threaded"] {
+                lines.push("case spur fnv1a".into());
+                lines.push("pool".into());
+                let mut slot = 0;
+                for unit in ["\u{e9}", "\u{221a}", "\u{1f600}"] {
+                    for k in 0..4usize {
+                        let s = format!("{}{}", "a".repeat(k), unit.repeat(1300 / unit.len()));
+                        let h = harness::hex(s.as_bytes());
+                        let doc = if kind == "threaded" {
+                            format!("{}=1,{h}=2,{}=3,{h}=2,{}=4", harness::hex(b"first"), harness::hex(b"middle"), harness::hex(b"last"))
+                        } else {
+                            format!("{},{h},{},{h},{}", harness::hex(b"first"), harness::hex(b"middle"), harness::hex(b"last"))
+                        };
+                        lines.push(format!("de {kind} {slot} {doc}"));
+                        lines.push(format!("len {slot}"));
+                        slot += 1;
+                    }
+                }
+            }
             std::fs::write(format!("{prefix}.ops"), lines.join("\n") + "\n").unwrap();
             std::env::set_var("SEQ_NO_LEAK_RERUN", "1");
             supervise(prefix);
@@ -579,6 +600,14 @@ fn main() {
             if profile == "core" || profile == "growth" {
                 for h in ["fnv1a", "const0", "topBitsConst"] {
                     g.growth_case(if tier == "thorough" { 1200 } else { 80 }, h);
+                }
+            }
+            if profile == "eq" {
+                let sizes: &[usize] = if tier == "thorough" { &[2, 3, 17, 63, 64, 65, 130, 257, 1025] } else { &[3, 64, 130] };
+                for &n in sizes {
+                    for variant in 0..4 {
+                        g.eq_pairs_case(n, variant);
+                    }
                 }
             }
             if profile != "growth" {
